@@ -11,6 +11,8 @@ package lossless
 import (
 	"runtime"
 	"sync"
+
+	"github.com/deepteams/webp/internal/verifhook"
 )
 
 const (
@@ -352,6 +354,7 @@ func (hc *HashChain) fillParallel(argb []uint32, xsize, size, iterMax int, winSi
 		if posEnd > size-1 {
 			posEnd = size - 1
 		}
+		verifhook.Range("hashchain", 1, size-1, w, numWorkers, posStart, posEnd)
 		go func(posStart, posEnd int) {
 			defer wg.Done()
 			fillMatchRange(hc.OffsetLength, chain, argb, xsize, size, iterMax, winSize, posStart, posEnd)
